@@ -8,12 +8,15 @@ from tools import mut
 from rules import registry
 
 pid, var = sys.argv[1], sys.argv[2]
-src = "/tmp/seed/%s/SEED/%s" % (pid, var)
-res = json.load(open("/tmp/seedres/%s-%s.json" % (pid, var)))
+base = sys.argv[3] if len(sys.argv) > 3 else "/tmp/seed"          # round 2: /tmp/seed2
+outvar = sys.argv[4] if len(sys.argv) > 4 else var                 # round 2: a->c, b->d
+rdir = sys.argv[5] if len(sys.argv) > 5 else "/tmp/seedres"
+src = "%s/%s/SEED/%s" % (base, pid, var)
+res = json.load(open("%s/%s-%s.json" % (rdir, pid, var)))
 if not res.get("confirmed"):
     print("NOT CONFIRMED", pid, var, res["steps"])
     sys.exit(1)
-dst = os.path.join(VERIF, "seeded", "%s-%s" % (pid, var))
+dst = os.path.join(VERIF, "seeded", "%s-%s" % (pid, outvar))
 os.makedirs(dst, exist_ok=True)
 for fn in os.listdir(src):
     shutil.copy(os.path.join(src, fn), os.path.join(dst, fn))
@@ -21,7 +24,7 @@ notes = open(os.path.join(src, "notes.md")).read() if os.path.exists(os.path.joi
 fired = mut.run_seed(os.path.join(dst, "patch.diff"), sorted(registry.QUICK))
 meta = {
     "breaks_property": pid,
-    "source": "independent sub-agent given only the property text and a scratch worktree",
+    "source": "independent sub-agent given only the property text and a scratch worktree (round %s)" % ("2" if "seed2" in base else "1"),
     "summary": notes.strip().split("\n\n")[0][:600],
     "needs_to_manifest": next((p for p in notes.split("\n\n") if re.search(r"manifest|needs|only shows|trigger", p, re.I)), "")[:900],
     "confirmed_by": {"tool": "tools/verify_seed.py in a scratch worktree of /repo HEAD", "steps": res["steps"]},
